@@ -9,9 +9,9 @@ V = os.path.dirname(os.path.dirname(os.path.abspath(__file__)))
 def sh(cmd, env=None):
     return subprocess.run(cmd, shell=True, capture_output=True, text=True, env=env)
 WT = "/tmp/seedwt-%d" % os.getpid()
-def wt_make():
+def wt_make(base="HEAD"):
     sh("git -C /repo worktree remove --force %s; rm -rf %s" % (WT, WT))
-    return sh("git -C /repo worktree add -q --detach %s HEAD" % WT).returncode == 0
+    return sh("git -C /repo worktree add -q --detach %s %s" % (WT, base)).returncode == 0
 def wt_drop():
     import hashlib
     sh("git -C /repo worktree remove --force %s; rm -rf %s" % (WT, WT))
@@ -41,7 +41,7 @@ for d in sorted(glob.glob(V + "/seeded/*/")):
     out = "%s/corpus/%s/%s.case" % (V, pid, name)
     if os.path.exists(out):
         continue
-    if not wt_make() or sh("git -C %s apply --whitespace=nowarn %spatch.diff" % (WT, d)).returncode != 0:
+    if not wt_make(meta.get("base") or "HEAD") or sh("git -C %s apply --whitespace=nowarn %spatch.diff" % (WT, d)).returncode != 0:
         wt_drop(); print(name, "PATCH-DOES-NOT-APPLY"); continue
     got = None
     try:
